@@ -61,6 +61,11 @@ func ruleAddOriginTests(p *Prog, l *Ledger, tier string) {
 				f, other = fy, bo.X
 				op = map[token.Token]token.Token{token.LSS: token.GTR, token.LEQ: token.GEQ, token.GTR: token.LSS, token.GEQ: token.LEQ, token.EQL: token.EQL, token.NEQ: token.NEQ}[op]
 			}
+			// the running maximum of a scan over all cues (it.EndAt > max) decides nothing about one cue
+			if ph, ok := stripAllConv(other).(*ssa.Phi); ok && maxScanOverItems(ph, loopsOf(bo.Parent())) {
+				n--
+				continue
+			}
 			c, isC := constInt(other)
 			switch {
 			case !isC || c != 0:
@@ -73,4 +78,104 @@ func ruleAddOriginTests(p *Prog, l *Ledger, tier string) {
 		}
 	}
 	l.Min(rule, n, 2)
+	// bulk removal: a store that empties or truncates the list outside any per-cue loop removes cues
+	// without having looked at each of them; that is only right when the test that guards it bounds
+	// every cue's end – a maximum over all cues – and not the end of one designated cue (Duration()
+	// is the end of the last listed cue, which need not be the one that ends last)
+	for _, h := range p.Helpers(fn) {
+		if fnPkg(h) != p.LibSSA || FnName(h) == "Subtitles.Order" {
+			continue
+		}
+		loops := loopsOf(h)
+		for _, b := range h.Blocks {
+			inLoop := false
+			for _, li := range loops {
+				if li.blocks[b] {
+					inLoop = true
+				}
+			}
+			if inLoop {
+				continue
+			}
+			for _, ins := range b.Instrs {
+				st, ok := ins.(*ssa.Store)
+				if !ok {
+					continue
+				}
+				if t, f := fieldOfAddr(st.Addr); t != "Subtitles" || f != "Items" {
+					continue
+				}
+				bulk := false
+				switch v := st.Val.(type) {
+				case *ssa.Slice:
+					if _, f2, _ := loadedField(v.X); f2 == "Items" {
+						bulk = true
+						// s.Items[:n] with n counted by a loop over the cues is the per-cue filter idiom
+						if v.High != nil {
+							base, _ := linear(v.High)
+							if ph, ok := base.(*ssa.Phi); ok {
+								for _, li := range loops {
+									if li.header == ph.Block() || li.blocks[ph.Block()] {
+										bulk = false
+									}
+								}
+								// the exit value of a counting loop: a phi whose operands come from a loop
+								for _, e := range ph.Edges {
+									if ei, ok := e.(ssa.Instruction); ok {
+										for _, li := range loops {
+											if li.blocks[ei.Block()] {
+												bulk = false
+											}
+										}
+									}
+								}
+							}
+						}
+					}
+				case *ssa.Const:
+					bulk = true
+				case *ssa.MakeSlice:
+					bulk = true
+				}
+				if !bulk {
+					continue
+				}
+				key := l.Key(rule, name, "bulk-removal", "")
+				pos := p.Pos(st.Pos())
+				verdict, why := "", ""
+				for _, dc := range dominatingConds(b) {
+					bo, ok := dc.cond.(*ssa.BinOp)
+					if !ok {
+						continue
+					}
+					for _, side := range []ssa.Value{bo.X, bo.Y} {
+						base := stripAllConv(side)
+						if sum, ok := base.(*ssa.BinOp); ok && (sum.Op == token.ADD || sum.Op == token.SUB) {
+							for _, s2 := range []ssa.Value{sum.X, sum.Y} {
+								if k, d := endBoundKind(p, s2); k != "" {
+									if verdict != "one-cue" {
+										verdict, why = k, d
+									}
+								}
+							}
+							continue
+						}
+						if k, d := endBoundKind(p, base); k != "" {
+							if verdict != "one-cue" {
+								verdict, why = k, d
+							}
+						}
+					}
+				}
+				switch verdict {
+				case "max-scan":
+					l.Prove(rule, name, key, pos, "the list is emptied in one go under a test of the maximum end over all cues")
+				case "one-cue":
+					l.Fail(rule, name, key, pos, fmt.Sprintf("%s empties or truncates the list in one go under a test of the end of one designated cue (%s): on a start-ordered list the last cue need not be the one that ends last ([0s,9s) then [1s,2s)), so a cue whose shifted end is still positive is removed with the others", name, why))
+				default:
+					l.Fail(rule, name, key, pos, fmt.Sprintf("%s empties or truncates the list outside the per-cue loop without a test that bounds every cue's end: cues whose shifted end is still positive can be removed", name))
+				}
+			}
+		}
+	}
 }
